@@ -896,7 +896,7 @@ theorem pollNormal_inv (c : Cfg) (i : In) (s : St) (o : List Out) (h : Inv c s) 
 
 theorem pollOnce_inv (c : Cfg) (i : In) (s : St) (o : List Out) (h : Inv c s) :
     (pollOnce c i s o).sat (Inv c) := by
-  unfold pollOnce
+  unfold pollOnce pollModes
   have h1 := pollHeadTimer_inv c i _ (pollGraceful_inv c i s h)
   simp only
   split
@@ -1009,7 +1009,7 @@ theorem pollShutdown_closing (c : Cfg) (i : In) (s : St) (o : List Out) (d : Nat
 theorem pollOnce_closing (c : Cfg) (i : In) (s : St) (o : List Out) (d : Nat) (hi : Inv c s) (h : Closing s d) :
     ∃ r, pollOnce c i s o = .ret r ∧
       (r.s.complete = true ∨ (i.now < d ∧ Closing r.s d)) ∧ (d ≤ i.now → r.s.complete = true) := by
-  unfold pollOnce
+  unfold pollOnce pollModes
   have h1 := pollHeadTimer_closing c i _ d (pollGraceful_inv c i s hi) (pollGraceful_closing i s d h)
   have i1 := pollHeadTimer_inv c i _ (pollGraceful_inv c i s hi)
   simp only
